@@ -453,7 +453,12 @@ def check_c20(ctx: Ctx) -> list[dict]:
     assert rec is not None
     out: list[dict] = []
     by_stage: dict = {}
+    # predicates registered through add_domain_rule are pseudo predicates of minmax_chains that stand for the candidate
+    # values of an aggregate; their name coincides with the result predicate, which also holds #inf/#sup
+    pseudo = {tuple(e["pred"]) for e in rec.events if e["kind"] == "add_domain_rule"}
     for ev in rec.domain_map:
+        if ev["kind"] == "dom" and tuple(ev["pred"]) in pseudo:
+            continue
         if ev["kind"] in ("dom", "order"):
             by_stage.setdefault(ev["stage_idx"], []).append(ev)
     for stage_idx, evs in sorted(by_stage.items()):
@@ -520,7 +525,8 @@ def solve_symbols(text: str, inst: list, consts: dict) -> Optional[list]:
 def _check_domain_event(ctx: Ctx, ev: dict, models: list, inst: list, stage: dict) -> list[dict]:
     out: list[dict] = []
     dom = tuple(ev["dom"])
-    base = {"event": ev, "instance": inst, "stage": [stage["name"], stage["iter"]]}
+    rules = [t for t in stage["stmts"] if t.startswith(dom[0] + "(") or t.startswith(dom[0] + " ") or t.startswith(dom[0] + ".")]
+    base = {"event": ev, "instance": inst, "stage": [stage["name"], stage["iter"]], "step": stage["name"], "domain_rules": rules[:6]}
     exts = [frozenset(m.get(dom, set())) for m in models]
     ctx.counters["c20_checks"] += 1
     if len(set(exts)) > 1:
